@@ -496,24 +496,37 @@ def _joiner_mapping(p, mod, sp, consts):
 
 
 def _statement_groups(cx, port):
+    """the groups of mutually exclusive statement keywords that locate_statements iterates: a list of lists of keyword strings,
+    written as a module-level constant, as a list display, or accumulated by append/push calls (whatever its name)"""
     p = cx.port(port)
     mod = cx.engine_mod(port)
     consts = p.module_consts(mod)
-    groups = []
-    if port == 'py':
-        for st in p.modules[mod].body:
-            if isinstance(st, ast.Assign) and is_name(st.targets[0], 'default_statement_groups'):
-                v = const_value(st.value, consts)
-                if v is not NOCONST:
-                    groups = v
-    else:
-        fd = p.func(mod, 'locate_statements')
+
+    def is_groups(v):
+        return isinstance(v, (list, tuple)) and len(v) >= 5 and all(isinstance(g, (list, tuple)) and g and all(isinstance(x, str) for x in g) for g in v) and any('JOIN' in g for g in v)
+    cands = []
+    for st in p.modules[mod].body:
+        if isinstance(st, ast.Assign):
+            v = const_value(st.value, consts)
+            if v is not NOCONST and is_groups(v):
+                cands.append([list(g) for g in v])
+    fd = p.func(mod, 'locate_statements', required=False)
+    if fd is not None:
+        for n in walk_no_nested(fd):
+            if isinstance(n, (ast.List, ast.Tuple)):
+                v = const_value(n, consts)
+                if v is not NOCONST and is_groups(v):
+                    cands.append([list(g) for g in v])
+        acc = {}
         for c in walk_no_nested(fd):
-            if isinstance(c, ast.Call) and isinstance(c.func, ast.Attribute) and c.func.attr == 'push' and dotted(c.func.value) == 'statement_groups':
+            if isinstance(c, ast.Call) and isinstance(c.func, ast.Attribute) and c.func.attr in ('push', 'append') and isinstance(c.func.value, ast.Name) and len(c.args) == 1:
                 v = const_value(c.args[0], consts)
-                if v is not NOCONST:
-                    groups.append(v)
-    return groups
+                if v is not NOCONST and isinstance(v, (list, tuple)) and v and all(isinstance(x, str) for x in v):
+                    acc.setdefault(c.func.value.id, []).append(list(v))
+        for v in acc.values():
+            if is_groups(v):
+                cands.append(v)
+    return cands[0] if cands else []
 
 
 def rule_jn_joiners(cx, rep, port):
